@@ -5,7 +5,7 @@ from vlib import *
 import lfht_common as L
 import lfhtx_common as X
 PROGS = ['U0L0/U2L0/L0L0', 'U0U1/U2U5/L0XL0', 'U0L0X/U2L0X/L0L0', 'U3L3/U6L3X/L3XL3', 'U4/U7/L4XL4X', 'U0A1/U2L1/L0XL0X']
-XPROGS = ['U0L0N/U2L0N/U7L0NT', 'U0L0P2/L0NL0X/R7TL0N', 'R0R2/R7L0N/L0NTL0N', 'U0L0X/L0P2/L0P7T', 'U3U5L3P6/L3NL5X/TL3NT', 'U0Z2L0P2/U4L0NZ1/R7TL4N', 'U0L0P2/L0L0L0/L0L0T']
+XPROGS = ['U0L0P2/A3A5T/L0NTL3', 'U0R2/A1A5/L0NTL1', 'U0L0N/U2L0N/U7L0NT', 'U0L0P2/L0NL0X/R7TL0N', 'R0R2/R7L0N/L0NTL0N', 'U0L0X/L0P2/L0P7T', 'U3U5L3P6/L3NL5X/TL3NT', 'U0Z2L0P2/U4L0NZ1/R7TL4N', 'U0L0P2/L0L0L0/L0L0T']
 def key_never_absent(prog, raw):
     """a key continuously present while it is being replaced is found by every concurrent lookup: programs whose only removals are replacements of a key inserted before the lookups began"""
     ev = X.events(raw); hist, _, _ = X.history(ev)
